@@ -20,12 +20,16 @@ def run(tier):
     chk.sample({"cfg": trs[0]["cfg"], "last_events": trs[0]["ev"][-3:]})
     # SequOOL
     QC.sources(chk, tier, own, ["InvRec"], ["StepExhausted"], neg=True)
+    # StroquOOL: the re-evaluated candidate with the highest validation mean
+    from . import c04
+    trs = [t for t in S.pmap(SS.run_soo, c04.stro_cfgs(tier, 1990000)) if "skipped" not in t]
+    chk.validate("Trace_Stro.tla", "Trace_Stro.cfg", trs, "stro", own=own, chunk=20, nontrivial=lambda t: len(t["ev"]) > 100)
     # POO / GPO / PCT / VPCT
     WC.gpo_models(chk, tier, small=True)
     trs = S.pmap(W.run_wrap, WC.gpo_cfgs(tier, 1900000, patterns=("g", "neg", "tied"))[: (15 if tier == "quick" else 120)] + WC.poo_cfgs(tier, 1950000, patterns=("g", "neg", "tied"))[: (15 if tier == "quick" else 120)])
     chk.validate("Trace_Wrap.tla", "Trace_Wrap.cfg", trs, "wrap", own=own, nontrivial=lambda t: t["learners"] >= 2)
-    chk.assumptions = ["recommendation queries are issued after the loop and at a few intermediate rounds; the evaluated set is the specification's own ledger (cells with a recorded reward)", "StroquOOL's candidate rule is not yet covered in this round"]
+    chk.assumptions = ["recommendation queries are issued after the loop and at a few intermediate rounds; the evaluated set is the specification's own ledger (cells with a recorded reward)"]
     return chk.finish(
-        rule="MC: recommendation sets of the SOOFamily / SequOOL / GPO models are well defined on every reachable state; TV: get_last_point of DOO, SOO, StoSOO, SequOOL, POO, GPO, PCT, VPCT on grid histories including all-negative, all-equal and tied rewards, validated against RecBestEvaluated / RecStoSOO / RecBest / Best of the specifications.  Non-trivial = accepted trace with >= 3 expansions (wrappers: >= 2 learners).",
+        rule="MC: recommendation sets of the SOOFamily / SequOOL / GPO models are well defined on every reachable state; TV: get_last_point of DOO, SOO, StoSOO, SequOOL, StroquOOL, POO, GPO, PCT, VPCT on grid histories including all-negative, all-equal and tied rewards, validated against RecBestEvaluated / RecStoSOO / RecBest / Best of the specifications.  Non-trivial = accepted trace with >= 3 expansions (wrappers: >= 2 learners).",
         explanation="DOO/SOO/SequOOL: the returned point must be the representative of an evaluated cell whose reward no evaluated cell exceeds; StoSOO: a deepest-level cell of maximal recorded mean (0 while unevaluated), compared exactly as sum/count; GPO family: a validated point of maximal score once all phases are over; POO: a pull of a learner of maximal true mean.",
     )
